@@ -6,9 +6,9 @@
   clusters and subregions *in any order*, on a linear record, inside a circular record, across
   the origin, or covering a whole circular record; every record length.  The hypotheses
   (`inputOK`, `viewOK`: Spec/Layout.lean) say only what the secmet constructors and region
-  formation guarantee: areas are one part or `[s, L) + [0, e)` with `e < s`, lie inside the
+  formation guarantee: areas are one part or `[s, L) + [0, e)` with `e ≤ s`, lie inside the
   region, a protocluster's core lies inside the protocluster.  The model is the code with the
-  repairs D24, D30, D31 (fixes/) applied; without them 3, 5, 6 are false (corpus/C19).
+  repairs D24, D30, D31, D70-C19 (fixes/) applied; without them 3, 5, 6 are false (corpus/C19).
 -/
 import ASV.Proofs.PackingBuild
 import ASV.Proofs.PackingGenes
@@ -120,6 +120,41 @@ theorem areas_order_preserved (c : Ctx) (r : RegionIn) (out : List Area) (hin : 
     in particular a height of 0, a start of 0 and an end of 0 are always written -/
 theorem minimal_json_roundtrip (a : Area) : readArea a.toMinimalJson = some a :=
   minimal_json_lossless a
+
+/-- in a region that spans the origin — including one that also tiles the whole record,
+    `[s, L) + [0, s)` — no area is ever split at the origin: every area is drawn whole, continuing
+    past the record length (splitting is for the whole-record region `[0, L)` only; deciding it by
+    "the region covers the record" instead of "the region does not span the origin" falsifies this
+    and `areas_in_range`) -/
+theorem origin_spanning_region_never_splits (c : Ctx) (r : RegionIn) (out : List Area)
+    (hin : inputOK c r = true) (hx : c.regionCrosses = true) (h : buildAreaRows c r = some out) :
+    ∀ a ∈ out, a.group = 0 := by
+  obtain ⟨seq, out', hseq, _, h', bok, _⟩ := build_total' hin
+  obtain rfl : out' = out := by rw [h'] at h; exact Option.some.inj h
+  -- the range starts after position 0
+  have hlo : 0 < (drawRange c).1 := by
+    obtain ⟨region, L, circ⟩ := c
+    have hc := (inputOK_parts hin).1
+    simp only [regionOK, Bool.and_eq_true] at hc
+    rcases collOK_cases hc.1 with ⟨R, rfl, _⟩ | ⟨S, E, rfl, h1, h2, h3⟩
+    · simp [Ctx.regionCrosses, Loc.parts] at hx
+    · simp only [drawRange]; omega
+  intro a ha
+  obtain ⟨x, _, gid, as, _, good, hm⟩ := bok.src a ha
+  rcases good.drawn with ⟨a', rfl, hg, _⟩ | ⟨a', b', rfl, _, _, hsh, _⟩
+  · simp only [List.mem_singleton] at hm
+    subst hm; exact hg
+  · -- a second half would start at 0, before the range
+    exfalso
+    have hb := (areaInRange_iff _ _ _).1 (good.range b' (by simp))
+    have h0 : b'.nstart = 0 := by
+      simp only [Drawn.shown] at hsh
+      split at hsh
+      · rename_i hcond
+        simp only [Bool.and_eq_true, beq_iff_eq] at hcond
+        exact hcond.1.1.2
+      · simp at hsh
+    omega
 
 /-! ### get_unique_protoclusters: from the region's children to the drawing -/
 
@@ -308,5 +343,22 @@ example : exGeneLocs.all (geneOK exCross) = true ∧ exGeneLocs.all (geneOK exWh
 example : exGeneLocs.map (geneView exCross) =
     [⟨960, 980, false, false, -1⟩, ⟨990, 12, true, false, 1⟩, ⟨985, 7, true, false, -1⟩,
      ⟨10, 40, false, true, -1⟩] := by decide
+
+/-- a region that spans the origin *and* tiles the record, `[700,1000) + [0,700)`: the
+    origin-spanning protocluster and candidate continue past 1000, nothing is split; and a child
+    that itself tiles the record from 600 back to 600 (D70-C19) -/
+def exTile : Ctx := ⟨xl 700 1000 700, 1000, true⟩
+def exTileIn : RegionIn :=
+  { subregions := [⟨sl 150 700, .sub, default, false, "s"⟩],
+    candidates := [⟨xl 700 1000 200, .cand, xl 900 1000 50, true, "CC 1"⟩],
+    protos := [⟨xl 700 1000 200, .proto, xl 900 1000 50, false, "a"⟩] }
+example : inputOK exTile exTileIn = true ∧ exTile.regionCrosses = true := by decide
+example : (buildAreaRows exTile exTileIn).map
+      (·.map fun a => ((a.nstart, a.start, a.end, a.nend), (a.height, a.group))) =
+    some [((700, 700, 1200, 1200), (0, 0)), ((1150, 1150, 1700, 1700), (2, 0)),
+          ((700, 900, 1050, 1200), (4, 0))] := by decide
+example : inputOK ⟨xl 600 1000 600, 1000, true⟩ ⟨[⟨xl 600 1000 600, .sub, default, false, "x"⟩], [], []⟩ = true ∧
+    (buildAreaRows ⟨xl 600 1000 600, 1000, true⟩ ⟨[⟨xl 600 1000 600, .sub, default, false, "x"⟩], [], []⟩).map
+      (·.map fun a => (a.nstart, a.nend, a.group)) = some [(600, 1600, 0)] := by decide
 
 end ASV.C19
